@@ -18,9 +18,9 @@ LEVEL = "model_checking"
 def cases(tier, seed):
     rnd = random.Random(repr(("c13", seed)))
     out = []
-    n = 300 if tier == "quick" else 3000
+    n = 500 if tier == "quick" else 4000
     for k in range(n):
-        m = fieldmap.default_mapping() if k % 5 == 0 else fieldmap.random_mapping(rnd)
+        m = fieldmap.default_mapping() if k % 6 == 0 else (fieldmap.random_mapping(rnd) if k % 2 else fieldmap.free_mapping(rnd))
         holes = rnd.choice([0.0, 0.0, 0.04, 0.08, 0.15, 0.3])
         docs = [fieldmap.random_doc(rnd, holes=holes) for _ in range(rnd.randint(1, 3))]
         out.append({"docs": docs, "map": m})
